@@ -1589,5 +1589,55 @@ seed("c04-limiter-counts-while-lifted", "C04", "R-linelimit-bypass-uncounted", "
 
 	for _, chr := range b[:n] {""", """	for _, chr := range b[:n] {""", "a binary chunk leaves a line count behind; the next command is refused as too long")
 
+# ---- batch 36 (2026-09-28) ----
+for pid in ("C17", "C04"):
+    seed(pid.lower()+"-data-verdict-after-close", pid, "R-no-reply-after-close", "conn.go",
+"""	c.writeResponse(code, enhancedCode, msg)
+	if drainErr != nil {
+		// The end of the message was not reached (timeout, connection
+		// error): what follows in the stream is not a command.
+		c.Close()
+	}
+}""", """	if drainErr != nil {
+		c.Close()
+	}
+	c.writeResponse(code, enhancedCode, msg)
+}""", "the backend's DATA verdict is written to a closed socket when the drain failed")
+for pid in ("C07", "C16"):
+    seed(pid.lower()+"-sendmail-resets-after-failed-copy", pid, "R-no-command-while-data-open", "client.go",
+"""	_, err = io.Copy(w, r)
+	if err != nil {
+		return err
+	}
+	return w.Close()""", """	_, err = io.Copy(w, r)
+	if err != nil {
+		c.Reset()
+		return err
+	}
+	return w.Close()""", "RSET after a failed copy: textproto ends the open dot-writer, the truncated body is delivered as complete")
+for pid in ("C01", "C05"):
+    seed(pid.lower()+"-limiter-drops-octets-delivered-with-error", pid, "R-stream-layers-readonly", "lengthlimit_reader.go",
+"""	n, err := r.R.Read(b)
+	if err != nil {
+		return n, err
+	}""", """	n, err := r.R.Read(b)
+	if err != nil {
+		return 0, err
+	}""", "octets the transport delivered together with an error (TLS record before close_notify) are dropped")
+for pid in ("C13", "C17"):
+    seed(pid.lower()+"-readline-arms-both-deadlines", pid, "R-write-deadline-owner", "conn.go",
+"""		if err := c.conn.SetReadDeadline(time.Now().Add(c.server.ReadTimeout)); err != nil {""",
+"""		if err := c.conn.SetDeadline(time.Now().Add(c.server.ReadTimeout)); err != nil {""", "replies written later than ReadTimeout after the command line are lost")
+seed("c05-second-limiter-around-debug-tee", "C05", "R-linelimit-layer", "conn.go",
+"""			io.TeeReader(rwc.Reader, c.server.Debug),""", """			&lineLimitReader{R: io.TeeReader(c.conn, c.server.Debug), LineLimit: c.server.MaxLineLength},""",
+  "with a debug writer the chain holds a limiter handleBdat cannot lift")
+seed("c03-starttls-keeps-session-pointer", "C03", "R-tls-success-effects", "conn.go",
+"""		session.Logout()
+		c.setSession(nil)
+	}
+	c.helo = \"\"""", """		session.Logout()
+	}
+	c.helo = \"\"""", "the EHLO after STARTTLS is taken for a repeated greeting: no session sees the TLS state")
+
 json.dump(S, open(os.path.join(os.path.dirname(os.path.abspath(__file__)), "bank.json"), "w"), indent=1)
 print(len(S), "seeds")
